@@ -100,7 +100,7 @@ def split_lines(att, newline):
     return lines
 
 
-def explore(rep, cases, oracle, tier, corr_label):
+def explore(rep, cases, oracle, tier, corr_label, extra=None):
     """runs every case on the binary (8 workers), checks model correspondence and calls oracle(R, report_fn)"""
     corr = []
     tl = threading.local()
@@ -118,6 +118,8 @@ def explore(rep, cases, oracle, tier, corr_label):
                 diffs, _ = renderrun.compare_file(tl.m, R.prefix)
             except Exception as e:       # model failure is a correspondence failure, not a crash of the check
                 diffs = ["model error: %s" % str(e)[:200]]
+            if extra is not None:       # further questions to the model, asked in the worker thread that owns this model process
+                extra(R, tl.m)
         return R, diffs
     with ThreadPoolExecutor(max_workers=8) as ex:
         for R, diffs in ex.map(work, cases):
@@ -153,12 +155,14 @@ def finish(rep, build, pid, corr, what_corr, explanation, assumptions):
     return rep.finish(ps)
 
 
-def replay_format(rp, oracle):
+def replay_format(rp, oracle, extra=None):
     with tempfile.TemporaryDirectory(prefix="rr_", dir=common.WORK) as wd:
         case = Case(rp.get("label", "replay"), rp["lang"], rp.get("cfg"), common.unb64(rp["input_b64"]), cfg_path=rp.get("cfg_path"))
         if rp.get("lines"):
             case.lines = [progs.Line(d, t, kind=k, nsb=n) for d, n, k, t in rp["lines"]]
         R = run_case(wd, case)
+        if extra is not None and R.fin is not None:
+            extra(R, common.Model())
         print("rc", R.rc)
         if R.fin is None:
             print("no dump (exit status %s)" % R.rc)
